@@ -123,7 +123,7 @@ def coq_build(target=None, jobs=8, timeout=1500):
         rc, out, _ = _run(['coq_makefile', '-f', '_CoqProject', '-o', 'Makefile'] + files, 60, cwd=COQ)
         if rc != 0:
             return False, out
-        cmd = ['make', f'-j{jobs}'] + ([target] if target else [])
+        cmd = ['make', f'-j{jobs}'] + (target.split() if target else [])
         rc, out, dt = _run(cmd, timeout, cwd=COQ)
         return rc == 0, out
 
@@ -231,13 +231,12 @@ def coq_failing(name, imports, case_terms, checker, shard=400, timeout=900, jobs
     from concurrent.futures import ThreadPoolExecutor
     shards = [(i, case_terms[i:i + shard]) for i in range(0, len(case_terms), shard)]
     # the modules the evaluation imports must be compiled (they need not be in the cone of the property file)
-    for kind, mod in sorted(set(re.findall(r'LT\.(Model|Gen|Proofs)\.(\w+)', imports))):
-        vo = os.path.join(COQ, kind, mod + '.vo')
-        src = os.path.join(COQ, kind, mod + '.v')
-        if not os.path.exists(vo) or (os.path.exists(src) and os.path.getmtime(vo) < os.path.getmtime(src)):
-            ok, log = coq_build(f'{kind}/{mod}.vo')
-            if not ok:
-                raise CoqError(f'could not build {kind}/{mod}.vo\n' + log[-1500:])
+    mods = sorted({f'{kind}/{mod}.vo' for kind, mod in re.findall(r'LT\.(Model|Gen|Proofs)\.(\w+)', imports)})
+    if mods:
+        # always through make: a compiled module may be stale because something it depends on changed
+        ok, log = coq_build(' '.join(mods))
+        if not ok:
+            raise CoqError('could not build ' + ' '.join(mods) + '\n' + log[-1500:])
 
     def one(arg):
         off, terms = arg
